@@ -34,6 +34,7 @@ from mc.explore import execute, explore
 from mc.ndnenv import FRONTENDS, owned_env, exc_class
 from mc.seams import key_der, pub_der, owned_random, fixed_now
 from mc.ref import tlv_strict as ts
+from mc.ref import ndn_strict as ns
 
 PROPERTY = 'C06'
 
@@ -220,6 +221,7 @@ def build_corpus():
     c['data'] = data
     c['interest'] = bytes(enc.make_interest('/th/q', ip))
     c['interest-params'] = bytes(enc.make_interest('/tv/q', ip, b'pp'))
+    c['interest-params-empty'] = bytes(enc.make_interest('/tv/q', ip, b''))
     c['interest-signed'] = bytes(enc.make_interest('/tv/q', ip, b'pp', DigestSha256Signer(for_interest=True)))
     c['lp-nack'] = bytes(enc.make_network_nack(interest_t, 150))
     lp = enc.ndnlp_v2.LpPacket()
@@ -439,6 +441,20 @@ def run_robust(fe_name, blob: bytes):
             viol.append((f'C06|robust|{fe_name}|transport-handler-raises|{type(e).__name__}@{tb_where(e)}',
                          f'UdpFace datagram handler raised {type(e).__name__} on {blob[:24].hex()}... (len {len(blob)})'))
         loop.drain()
+        # a handler may only see a parameterised / signed Interest whose parameters digest is right
+        if v.handled:
+            try:
+                inner = blob
+                if blob[:1] == b'\x64':
+                    inner = ns.read_lp(blob)['fragment'] or b''
+                ri = ns.read_interest(inner)
+                needs = ri['app'] is not None or ri['sig_info'] is not None
+                good = ri['digest_cover'] is not None and ri['digest_value'] == hashlib.sha256(ri['digest_cover']).digest()
+                if needs and not good:
+                    viol.append((f'C06|robust|{fe_name}|handler-called-for-interest-with-bad-digest',
+                                 f'handler {v.handled} invoked for {blob[:24].hex()}... (len {len(blob)}) whose parameters digest is wrong or missing'))
+            except ts.Malformed:
+                pass
         mid_fail = loop.task_failures(ignore=set(v.callers.values()))
         for f in mid_fail:
             viol.append((f"C06|robust|{fe_name}|task-error|{f['exception']}@{f['where']}",
